@@ -20,7 +20,7 @@ import (
 	"errors"
 	"fmt"
 	"io"
-	"math"
+	"math/big"
 	"reflect"
 	"sort"
 	"strings"
@@ -709,13 +709,16 @@ type Accumulator interface {
 	Reset()
 }
 
-// sumInt64 implements an accumulator that sum int64 values.
+// sumInt64 implements an accumulator that sum int64 values. The sum is kept
+// exactly, so that whether it fits an int64 does not depend on the order in
+// which the values arrive.
 type sumInt64 struct {
 	initialState int64
-	state        int64
+	state        *big.Int
 }
 
-// Accumulate takes the given value and accumulates it to the current state.
+// Accumulate takes the given value and accumulates it to the current state. It
+// returns the sum as an int64 or, while the sum is outside int64, as a *big.Int.
 func (s *sumInt64) Accumulate(v interface{}) (interface{}, error) {
 	c := v.(*Cell)
 	l := c.L
@@ -724,23 +727,28 @@ func (s *sumInt64) Accumulate(v interface{}) (interface{}, error) {
 	}
 	iv, err := l.Int64()
 	if err != nil {
-		return s.state, err
+		return s.current(), err
 	}
-	if (iv > 0 && s.state > math.MaxInt64-iv) || (iv < 0 && s.state < math.MinInt64-iv) {
-		return s.state, fmt.Errorf("int64 overflow adding %d to the sum %d", iv, s.state)
+	s.state.Add(s.state, big.NewInt(iv))
+	return s.current(), nil
+}
+
+// current returns the sum as an int64 if it is one and a copy of the exact sum otherwise.
+func (s *sumInt64) current() interface{} {
+	if s.state.IsInt64() {
+		return s.state.Int64()
 	}
-	s.state += iv
-	return s.state, nil
+	return new(big.Int).Set(s.state)
 }
 
 // Resets the current state back to the original one.
 func (s *sumInt64) Reset() {
-	s.state = s.initialState
+	s.state = big.NewInt(s.initialState)
 }
 
 // NewSumInt64LiteralAccumulator accumulates the int64 types of a literal.
 func NewSumInt64LiteralAccumulator(s int64) Accumulator {
-	return &sumInt64{s, s}
+	return &sumInt64{s, big.NewInt(s)}
 }
 
 // sumFloat64 implements an accumulator that sum float64 values.
@@ -876,6 +884,8 @@ func (t *Table) groupRangeReduce(i, j int, alias map[string]string, acc map[stri
 					return nil, err
 				}
 				newRow[a] = &Cell{L: l}
+			case *big.Int:
+				return nil, fmt.Errorf("int64 overflow: the sum of binding %s is %v", b, acc)
 			default:
 				return nil, fmt.Errorf("aggregation of binding %s returned unknown value %v or type", b, acc)
 			}
@@ -948,6 +958,8 @@ func (t *Table) unsafeFullGroupRangeReduce(i, j int, acc map[string]map[string]A
 						return nil, err
 					}
 					newRow[app.OutAlias] = &Cell{L: l}
+				case *big.Int:
+					return nil, fmt.Errorf("int64 overflow: the sum of binding %s is %v", b, vaccs[app.InAlias][app.OutAlias])
 				default:
 					return nil, fmt.Errorf("aggregation of binding %s returned unknown value %v or type", b, acc)
 				}
